@@ -1,51 +1,45 @@
-# units_lift_check.py — correspondence check of UnitsLift.v against rtamt.
+# units_lift_check.py — case stream `lift` of the check C08 (harness/c08.py): UnitsLift.v against rtamt.
 #
-# Seeded random specifications whose temporal bounds are spelled in random unit notations (literals with / without
-# units, one-sided units, declared constants, huge bounds, off-grid bounds, inverted intervals, undeclared constants),
-# random default unit and sampling period (integer or float text, any unit).  For each case
-#   rtamt : parse(), then one evaluate()/update() of the discrete offline, discrete online, dense offline, dense online
-#           monitor with time_unit_transformer wrapped by a logger (the sequence of bounds it returns, or the class of
-#           the first exception it raises); for specifications with future operators also pastify() followed by one
-#           update() of the discrete online monitor (bounds of the pastified operators, then check_pastified_bounds);
-#   model : parse_bounds, normalize_log, normalize_dense of UnitsLift.v and the bounds of pastify (normalize ...),
-#           computed by vm_compute in generated .v files (build/units_lift/).
-# The two are compared exactly: stage and class of the failure, the order and the values of all converted bounds
-# (dense: float(model Fraction) == the float rtamt returns).
-#
-# usage: PYTHONPATH=/repo python harness/units_lift_check.py [N] [SEED]
-import os
-import random
-import subprocess
+# Seeded random specifications whose temporal bounds are spelled in random unit notations (literals with / without units, also
+# with exponents, one-sided units, declared constants with / without units, undeclared / non-numeric / negative constants,
+# inverted and off-grid intervals, `unless`, bounds around sys.maxsize sampling periods and around the float range), random
+# default unit and sampling period (integer or float text, any unit).  For each specification
+#   rtamt : through harness/impl.py case dicts only: the call ['bounds_log'] wraps time_unit_transformer of the interpreter of
+#           that one specification object by a logger; then one evaluate() / update() of the discrete offline, discrete online,
+#           dense offline, dense online monitor (for specifications with future operators also pastify() and one update() of the
+#           discrete online monitor); a second ['bounds_log'] returns the sequence of bounds the method returned, or the class
+#           of the first exception it raised;
+#   model : command `unitslift` of the extracted driver: parse_bounds, normalize_log, normalize_dense of UnitsLift.v and the
+#           bounds of pastify (normalize ...) followed by the bounds of normalize ... (check_pastified_bounds).
+# Compared exactly: stage (parse() or later) and class of the failure, order and values of all converted bounds (discrete: Python
+# ints; dense: by value, float(model Fraction) when the bound is not a whole number of default units).
+import json
 import sys
-import re
-import logging
 from fractions import Fraction
+from harness.common import parse_fields
 
-logging.disable(logging.CRITICAL)
-HERE = os.path.dirname(os.path.abspath(__file__))
-ROOT = os.path.dirname(HERE)
 U = {'s': 10**9, 'ms': 10**6, 'us': 10**3, 'ns': 1}
-CU = {'s': 'US', 'ms': 'UMS', 'us': 'UUS', 'ns': 'UNS'}
 MAXSIZE = sys.maxsize
 FOVER = 2**1024 - 2**970
+KINDS = {'doff': 'discrete-offline', 'don': 'discrete-online', 'eoff': 'dense-offline', 'eon': 'dense-online', 'dpast': 'discrete-online'}
 
 
 def dec(q):
-    """exact decimal literal of a non-negative Fraction with a power-of-ten denominator"""
+    """exact decimal literal of a non-negative Fraction whose denominator divides a power of ten"""
     q = Fraction(q)
     if q.denominator == 1:
         return str(q.numerator)
     k = 0
     while (q * 10**k).denominator != 1:
         k += 1
-        assert k < 40
+        assert k < 60
     s = str(int(q * 10**k)).rjust(k + 1, '0')
     return s[:-k] + '.' + s[-k:]
 
 
-def coq_q(q):
+def sx_q(q):
     q = Fraction(q)
-    return '(%d # %d)' % (q.numerator, q.denominator)
+    return '%d %d' % (q.numerator, q.denominator)
 
 
 class Gen(object):
@@ -67,20 +61,21 @@ class Gen(object):
 
     def spell(self, ns, unit):
         """literal text of ns nanoseconds in the unit (exact), sometimes with an exponent or a trailing zero"""
-        q = Fraction(ns, U[unit])
+        q = Fraction(ns) / U[unit]
         r = self.rng.random()
         if r < 0.08 and q != 0:
             k = self.rng.choice([1, 2, 3])
             return dec(q / 10**k) + 'e%s%d' % (self.rng.choice(['', '+']), k)
         if r < 0.14:
             k = self.rng.choice([1, 2])
-            return dec(q * 10**k) + ('.0' if '.' not in dec(q * 10**k) else '') + 'e-%d' % k
+            t = dec(q * 10**k)
+            return t + ('.0' if '.' not in t else '') + 'e-%d' % k
         if r < 0.2 and q.denominator == 1:
             return dec(q) + '.0'
         return dec(q)
 
     def bound(self, du, pns, ctx):
-        """returns (text, coq term of the ubound, coq term with begin 0 for unless)"""
+        """-> (text of the interval, s-expression of the ubound)"""
         rng = self.rng
         r = rng.random()
         bk = rng.choice([0, 0, 1, 1, 2, 3])
@@ -97,16 +92,22 @@ class Gen(object):
             else:
                 b_ns += d
                 e_ns += pns
+            ctx['feat'].add('offgrid')
         elif r < 0.16:                           # inverted interval
             b_ns, e_ns = e_ns + rng.choice([1, pns]), b_ns
+            ctx['feat'].add('inverted')
         elif r < 0.40 and ctx['big']:            # around sys.maxsize sampling periods / around the float range
             if rng.random() < 0.5:
                 e_ns = (MAXSIZE + rng.choice([-2, -1, 0, 1])) * pns
+                ctx['feat'].add('maxsize')
             else:
-                e_ns = (FOVER + rng.choice([-1, 0, 1, -2**970])) * U[du]
+                # whole numbers of default units stay Python ints; halves become floats (or overflow)
+                e_ns = (FOVER + rng.choice([-1, 0, 1, -2**970]) + rng.choice([0, Fraction(1, 2), Fraction(-1, 2)])) * U[du]
                 if rng.random() < 0.5:
                     b_ns = e_ns
+                ctx['feat'].add('floatrange')
         style = rng.choice(['both', 'both', 'end', 'begin', 'none', 'none'])
+        ctx['feat'].add('units_' + style)
         if style == 'none':
             ub = ue = None
             rb = re_ = du
@@ -121,310 +122,276 @@ class Gen(object):
             rb = re_ = ub
         ends = []
         for (ns, ru, uu) in ((b_ns, rb, ub), (e_ns, re_, ue)):
-            q = Fraction(ns, U[ru])
+            q = Fraction(ns) / U[ru]
             c = rng.random()
             if c < 0.2:
+                nm = 'k%d' % len(ctx['consts'])
                 if c < 0.015:
                     nm = 'undecl%d' % len(ctx['consts'])
+                    ctx['feat'].add('const_undeclared')
                 elif c < 0.03:
-                    nm = 'k%d' % len(ctx['consts'])
-                    ctx['consts'].append((nm, rng.choice(['inf', 'abc', 'nan', '1e2000']), None))
+                    ctx['consts'].append([nm, rng.choice(['inf', 'abc', 'nan', '1e2000']), None])
+                    ctx['feat'].add('const_not_a_bound')
                 elif c < 0.045:
-                    nm = 'k%d' % len(ctx['consts'])
                     q = -q - rng.choice([0, 1])
-                    ctx['consts'].append((nm, '-' + dec(-q), q))
+                    ctx['consts'].append([nm, '-' + dec(-q), sx_q(q)])
+                    ctx['feat'].add('const_negative')
                 else:
-                    nm = 'k%d' % len(ctx['consts'])
-                    ctx['consts'].append((nm, self.spell(ns, ru), q))
+                    ctx['consts'].append([nm, self.spell(ns, ru), sx_q(q)])
+                    ctx['feat'].add('const')
                 txt = nm + (' ' + uu if uu else '')
-                coq = 'UId "%s"' % nm
+                sx = '(id %s)' % nm
             else:
                 txt = self.spell(ns, ru) + (uu if uu else '')
-                coq = 'ULit %s' % coq_q(q)
-            ends.append((txt, coq))
-        sep = rng.choice([',', ':'])
-        text = '[%s%s%s]' % (ends[0][0], sep, ends[1][0])
-        cu = lambda x: 'Some %s' % CU[x] if x else 'None'
-        coq = '{| u_b := %s; u_bu := %s; u_e := %s; u_eu := %s |}' % (ends[0][1], cu(ub), ends[1][1], cu(ue))
-        return text, coq
+                sx = '(lit %s)' % sx_q(q)
+            ends.append((txt, sx))
+        text = '[%s%s%s]' % (ends[0][0], rng.choice([',', ':']), ends[1][0])
+        return text, '(%s %s %s %s)' % (ends[0][1], ub or '_', ends[1][1], ue or '_')
 
     def leaf(self, ctx):
         rng = self.rng
         v = rng.choice([0, 1])
         ctx['used'].add(v)
         c = rng.choice([0, 1, 2, 3])
-        op, cop = rng.choice([('>=', 'CGeq'), ('<=', 'CLeq'), ('>', 'CGt'), ('<', 'CLt')])
-        return '(%s %s %d)' % ('ab'[v], op, c), '(BBin (OPred %s) (BVar %d) (BConst (Fin %d)))' % (cop, v, c)
+        op, cop = rng.choice([('>=', 'geq'), ('<=', 'leq'), ('>', 'gt'), ('<', 'lt')])
+        return '(%s %s %d)' % ('ab'[v], op, c), '(pred %s (var %d) (const %d))' % (cop, v, c)
 
     def formula(self, depth, du, pns, ctx):
         rng = self.rng
         if depth == 0 or rng.random() < 0.15:
             return self.leaf(ctx)
-        past_t1 = [('once', 'TOnce'), ('historically', 'THist')]
-        fut_t1 = [('eventually', 'TEv'), ('always', 'TAlw')]
         r = rng.random()
         if r < 0.35:
-            ops = past_t1 + ([] if ctx['past'] else fut_t1)
+            ops = [('once', 'oncet'), ('historically', 'histt')] + ([] if ctx['past'] else [('eventually', 'evt'), ('always', 'alwt')])
             t, c = rng.choice(ops)
             ft, fc = self.formula(depth - 1, du, pns, ctx)
             bt, bc = self.bound(du, pns, ctx)
-            return '(%s%s %s)' % (t, bt, ft), '(BUnT %s %s %s)' % (c, bc, fc)
+            return '(%s%s %s)' % (t, bt, ft), '(unt %s %s %s)' % (c, bc, fc)
         if r < 0.55:
-            ops = [('since', 'TSince')] + ([] if ctx['past'] else [('until', 'TUntil'), ('unless', None)])
+            ops = [('since', 'sincet')] + ([] if ctx['past'] else [('until', 'untilt'), ('unless', None)])
             t, c = rng.choice(ops)
             ft, fc = self.formula(depth - 1, du, pns, ctx)
             gt, gc = self.formula(depth - 1, du, pns, ctx)
             bt, bc = self.bound(du, pns, ctx)
             if c is None:
-                return '(%s unless%s %s)' % (ft, bt, gt), '(unless_t %s %s %s)' % (bc, fc, gc)
-            return '(%s %s%s %s)' % (ft, t, bt, gt), '(BBinT %s %s %s %s)' % (c, bc, fc, gc)
+                ctx['feat'].add('unless')
+                return '(%s unless%s %s)' % (ft, bt, gt), '(unless %s %s %s)' % (bc, fc, gc)
+            return '(%s %s%s %s)' % (ft, t, bt, gt), '(bint %s %s %s %s)' % (c, bc, fc, gc)
         if r < 0.75:
-            ops = [('not', 'ONot'), ('once', 'OOnce'), ('historically', 'OHist'), ('prev', 'OPrev'), ('rise', 'ORise')]
+            ops = [('not', 'not'), ('once', 'once'), ('historically', 'hist'), ('prev', 'prev'), ('rise', 'rise')]
             if not ctx['past']:
-                ops += [('next', 'ONext')]
+                ops += [('next', 'next')]
             t, c = rng.choice(ops)
             if t in ('prev', 'rise', 'next'):
                 ctx['nodense'] = True
             ft, fc = self.formula(depth - 1, du, pns, ctx)
             if t == 'rise':
-                return '(rise(%s))' % ft, '(BUn %s %s)' % (c, fc)
-            return '(%s %s)' % (t, ft), '(BUn %s %s)' % (c, fc)
-        ops = [('and', 'OAnd'), ('or', 'OOr'), ('since', 'OSince'), ('implies', 'OImplies')]
-        t, c = rng.choice(ops)
+                return '(rise(%s))' % ft, '(un %s %s)' % (c, fc)
+            return '(%s %s)' % (t, ft), '(un %s %s)' % (c, fc)
+        t = rng.choice(['and', 'or', 'since', 'implies'])
         ft, fc = self.formula(depth - 1, du, pns, ctx)
         gt, gc = self.formula(depth - 1, du, pns, ctx)
-        return '(%s %s %s)' % (ft, t, gt), '(BBin %s %s %s)' % (c, fc, gc)
+        return '(%s %s %s)' % (ft, t, gt), '(bin %s %s %s)' % (t, fc, gc)
 
     def case(self):
         rng = self.rng
         du, p, pu, pns = self.settings()
-        ctx = {'consts': [], 'used': set(), 'past': rng.random() < 0.6, 'big': rng.random() < 0.25}
+        ctx = {'past': rng.random() < 0.6, 'big': rng.random() < 0.25}
         while True:
-            ctx['consts'], ctx['used'], ctx['nodense'] = [], set(), False
-            text, coq = self.formula(rng.choice([1, 2, 2, 3]), du, pns, ctx)
+            ctx.update(consts=[], used=set(), nodense=False, feat=set())
+            text, sx = self.formula(rng.choice([1, 2, 2, 3]), du, pns, ctx)
             if '[' in text:
                 break
-        return {'du': du, 'p': p, 'pu': pu, 'pns': pns, 'text': text, 'coq': coq, 'consts': ctx['consts'],
-                'used': sorted(ctx['used']), 'past': ctx['past'], 'big': ctx['big'], 'nodense': ctx['nodense']}
-
-
-# ---------------------------------------------------------------- rtamt side
-
-def klass(exc):
-    from rtamt.exception.exception import RTAMTException
-    return 'rtamt' if isinstance(exc, RTAMTException) else 'crash:' + type(exc).__name__
-
-
-def post_order_nodes(node, out):
-    from rtamt.syntax.node.binary_node import BinaryNode
-    n = 2 if isinstance(node, BinaryNode) else (0 if type(node).__name__ in ('Variable', 'Constant') else 1)
-    for c in node.children[:n]:
-        post_order_nodes(c, out)
-    if type(node).__name__.startswith('Timed'):
-        out.append(node)
-
-
-def run_rtamt(c, kind):
-    """-> {'parse': 'ok'|class, 'log': [(b, e)...], 'fail': None|class, 'complete': bool}"""
-    import rtamt
-    spec = {'doff': rtamt.StlDiscreteTimeOfflineSpecification, 'don': rtamt.StlDiscreteTimeOnlineSpecification,
-            'eoff': rtamt.StlDenseTimeOfflineSpecification, 'eon': rtamt.StlDenseTimeOnlineSpecification,
-            'dpast': rtamt.StlDiscreteTimeOnlineSpecification}[kind]()
-    out = {'parse': 'ok', 'log': [], 'fail': None, 'complete': True}
-    try:
-        spec.unit = c['du']
-        if kind[0] == 'd':
-            spec.set_sampling_period(c['p'], c['pu'], 0.1)
-        spec.declare_var('a', 'float')
-        spec.declare_var('b', 'float')
-        for (n, t, _) in c['consts']:
-            spec.declare_const(n, 'float', t)
-        spec.spec = 'out = ' + c['text']
-        spec.parse()
-    except Exception as exc:  # noqa
-        out['parse'] = klass(exc)
-        return out
-    interp = spec.offline_interpreter if hasattr(spec, 'offline_interpreter') else spec.online_interpreter
-    orig = interp.time_unit_transformer
-    state = {'fail': None}
-
-    def wrap(node):
-        try:
-            r = orig(node)
-        except Exception as exc:  # noqa
-            if state['fail'] is None:
-                state['fail'] = klass(exc)
-            raise
-        if state['fail'] is None:
-            out['log'].append(r)
-        return r
-    if c['big']:
-        # bounds of ~2^63 samples: the operators would allocate their windows; call the method on the nodes in visiting order
-        nodes = []
-        interp.ast = spec.ast
-        post_order_nodes(spec.ast.specs[0], nodes)
-        try:
-            for n in nodes:
-                wrap(n)
-        except Exception:  # noqa
-            pass
-        out['fail'] = state['fail']
-        return out
-    interp.time_unit_transformer = wrap
-    names = ['a', 'b']
-    try:
-        if kind == 'dpast':
-            spec.pastify()
-        if kind == 'doff':
-            data = {'time': [0, 1, 2]}
-            for v in (0, 1):
-                data[names[v]] = [1.0, 2.0, 0.0]
-            spec.evaluate(data)
-        elif kind in ('don', 'dpast'):
-            spec.update(0, [(names[v], 1.0) for v in c['used']])
-        elif kind == 'eoff':
-            spec.evaluate(*[[names[v], [[0, 1.0], [1, 2.0], [2, 0.0]]] for v in c['used']])
-        else:
-            spec.update(*[[names[v], [[0, 1.0], [1, 2.0], [2, 0.0]]] for v in c['used']])
-    except Exception as exc:  # noqa
-        if state['fail'] is None:
-            out['complete'] = False
-            out['other'] = klass(exc) + ' ' + str(exc)[:80]
-    out['fail'] = state['fail']
-    return out
-
-
-# ---------------------------------------------------------------- model side
-
-PRELUDE = '''From Coq Require Import ZArith QArith List String.
-From RV Require Import Val Syntax Offline Pastify Units UnitsLift ExtZ.
-Import ListNotations.
-Local Open Scope string_scope.
-Definition enc_parse (o : outcome (@bformula ExtZVal interval)) : list Z := match o with Ok _ => [0%Z] | Rtamt => [1%Z] | Crash => [2%Z] end.
-Definition enc_disc (o : outcome (list (Z * Z))) : list Z :=
-  match o with Ok l => 0%Z :: flat_map (fun be => [fst be; snd be]) l | Rtamt => [1%Z] | Crash => [2%Z] end.
-Definition enc_dense (o : outcome (@bformula ExtZVal (Q * Q))) : list Z :=
-  match o with Ok u => 0%Z :: flat_map (fun be => [Qnum (fst be); Zpos (Qden (fst be)); Qnum (snd be); Zpos (Qden (snd be))]) (bounds u)
-             | Rtamt => [1%Z] | Crash => [2%Z] end.
-Definition nbounds (p : @formula ExtZVal) : list (Z * Z) := map (fun be => (Z.of_nat (fst be), Z.of_nat (snd be))) (bounds (of_formula p)).
-(* after pastify(): the operators of the pastified specification are built, then check_pastified_bounds converts the written bounds *)
-Definition past_log (big : bool) (st : settings) (ce : cenv) (u : @uformula ExtZVal) : outcome (list (Z * Z)) :=
-  if big then Ok [] else rmap (fun p => nbounds (pastify DelayOnce p (hor p)) ++ nbounds p)%list (normalize st ce u).
-Definition run (big : bool) (st : settings) (ce : cenv) (u : @uformula ExtZVal) : list (list Z) :=
-  [enc_parse (parse_bounds (s_du st) ce u); enc_disc (normalize_log st ce u); enc_dense (normalize_dense (s_du st) ce u);
-   enc_disc (past_log big st ce u)].
-'''
-
-
-def coq_case(c):
-    ce = '[' + '; '.join('("%s", %s)' % (n, 'Some %s' % coq_q(q) if q is not None else 'None') for (n, _, q) in c['consts']) + ']'
-    st = '{| s_du := %s; s_p := %s; s_pu := %s |}' % (CU[c['du']], coq_q(Fraction(str(c['p']))), CU[c['pu']])
-    return 'run %s %s %s %s' % ('true' if c['big'] or c['past'] else 'false', st, ce, c['coq'])
-
-
-def run_model(cases, tag):
-    d = os.path.join(ROOT, 'build', 'units_lift')
-    os.makedirs(d, exist_ok=True)
-    res = []
-    B = 250
-    procs = []
-    for k in range(0, len(cases), B):
-        fn = os.path.join(d, 'cases_%s_%d.v' % (tag, k // B))
-        with open(fn, 'w') as f:
-            f.write(PRELUDE)
-            f.write('Local Open Scope Z_scope.\n')
-            for c in cases[k:k + B]:
-                f.write('Eval vm_compute in (%s).\n' % coq_case(c))
-        procs.append(subprocess.Popen(['timeout', '900', 'coqc', '-Q', os.path.join(ROOT, 'coq', 'theories'), 'RV', fn],
-                                      stdout=subprocess.PIPE, stderr=subprocess.STDOUT, text=True, cwd=d))
-    for p in procs:
-        txt = p.communicate()[0]
-        if p.returncode != 0:
-            raise RuntimeError('coqc failed: ' + txt[-2000:])
-        for chunk in txt.split('     = ')[1:]:
-            body = chunk.split('     : ')[0]
-            lists = re.findall(r'\[([^\[\]]*)\]', body)
-            res.append([[int(x) for x in l.replace('\n', ' ').split(';') if x.strip()] for l in lists])
-    assert len(res) == len(cases), (len(res), len(cases))
-    return res
+        kinds = ['doff', 'eoff'] + (['don', 'eon'] if ctx['past'] else [])
+        if not ctx['past'] and not ctx['big']:
+            kinds.append('dpast')
+        if ctx['nodense'] and not ctx['big']:
+            kinds = [k for k in kinds if k[0] == 'd']       # the dense monitors have no prev / next / rise
+        ce = ' '.join('(%s %s)' % (n, q if q is not None else 'none') for (n, _, q) in ctx['consts'])
+        line = '(unitslift %d %s (%s) %s (%s) %s)' % (1 if (ctx['big'] or ctx['past']) else 0, du, sx_q(Fraction(str(p))), pu, ce, sx)
+        return {'lift': 1, 'unit': du, 'period': [p, pu, 0.1], 'text': text, 'model_line': line, 'consts': [[n, t] for (n, t, _) in ctx['consts']],
+                'used': sorted(ctx['used']), 'big': ctx['big'], 'kinds': kinds, 'ctor': rng.choice(['split', None]),
+                'feat': sorted(ctx['feat'] | {'unit_' + du, 'period_' + pu, 'huge_bounds' if ctx['big'] else 'ordinary_bounds'})}
 
 
 def expect(m, kind):
-    """what the model says rtamt does for this monitor kind: same record as run_rtamt"""
-    parse, disc, dense, past = m
-    if kind == 'dpast':
-        disc = past
-    if parse[0] != 0:
-        return {'parse': 'rtamt' if parse[0] == 1 else 'crash', 'log': None, 'fail': None}
-    r = disc if kind[0] == 'd' else dense
-    if r[0] != 0:
-        return {'parse': 'ok', 'log': None, 'fail': 'rtamt' if r[0] == 1 else 'crash'}
-    v = r[1:]
-    if kind[0] == 'd':
-        log = [(v[i], v[i + 1]) for i in range(0, len(v), 2)]
-    else:
+    """what the model says rtamt does for this monitor kind: {'parse': ok|rtamt|crash, 'fail': None|class, 'log': [(b, e)]}"""
+    code = lambda k: {'0': 'ok', '1': 'rtamt', '2': 'crash'}[m[k][0]]
+    if code('PARSE') != 'ok':
+        return {'parse': code('PARSE'), 'log': None, 'fail': None}
+    key = 'PAST' if kind == 'dpast' else ('DISC' if kind[0] == 'd' else 'DENSE')
+    if code(key) != 'ok':
+        return {'parse': 'ok', 'log': None, 'fail': code(key)}
+    v = [int(x) for x in m[key][1:]]
+    if key == 'DENSE':
         log = [(Fraction(v[i], v[i + 1]), Fraction(v[i + 2], v[i + 3])) for i in range(0, len(v), 4)]
+    else:
+        log = [(Fraction(v[i]), Fraction(v[i + 1])) for i in range(0, len(v), 2)]
     return {'parse': 'ok', 'log': log, 'fail': None}
 
 
-def main():
-    n = int(sys.argv[1]) if len(sys.argv) > 1 else 3000
-    seed = int(sys.argv[2]) if len(sys.argv) > 2 else 20260926
-    rng = random.Random(seed)
-    g = Gen(rng)
-    cases = [g.case() for _ in range(n)]
-    model = run_model(cases, str(seed))
-    stats = {'cases': n, 'compared': 0, 'parse_reject': 0, 'disc_reject': 0, 'dense_reject': 0, 'ok_logs': 0, 'incomplete': 0, 'bounds': 0}
-    bad = []
-    for c, m in zip(cases, model):
-        kinds = ['doff', 'eoff'] + (['don', 'eon'] if c['past'] else [])
-        if not c['past'] and not c['big']:
-            kinds.append('dpast')
-        if c['nodense'] and not c['big']:
-            kinds = [k for k in kinds if k[0] == 'd']       # the dense monitors have no prev / next / rise
-        for kind in kinds:
-            r = run_rtamt(c, kind)
-            e = expect(m, kind)
-            stats['compared'] += 1
-            if r['parse'] != 'ok' or e['parse'] != 'ok':
-                stats['parse_reject'] += (kind == 'doff' and r['parse'] != 'ok')
-                if r['parse'] != e['parse']:
-                    bad.append((kind, c, 'parse', r, e))
-                continue
-            if r['fail'] is not None or e['fail'] is not None:
-                stats['disc_reject' if kind[0] == 'd' else 'dense_reject'] += 1
-                stats['reject:' + kind] = stats.get('reject:' + kind, 0) + 1
-                if (r['fail'] or 'none').split(':')[0] != (e['fail'] or 'none'):
-                    bad.append((kind, c, 'fail', r, e))
-                continue
-            if not r['complete']:
-                stats['incomplete'] += 1
-                stats.setdefault('inc:' + kind + ':' + r.get('other', '')[:60], 0)
-                stats['inc:' + kind + ':' + r.get('other', '')[:60]] += 1
-                if r['log'] != [(float(x), float(y)) if kind[0] == 'e' else (x, y) for x, y in e['log'][:len(r['log'])]]:
-                    bad.append((kind, c, 'prefix', r, e))
-                continue
+def same_bound(kind, got, want):
+    """one end of one bound: got = (exact text, type name) from rtamt, want = the Fraction of the model"""
+    x, ty = Fraction(got[0]), got[1]
+    if kind[0] == 'd':
+        return ty == 'int' and x == want
+    if want.denominator == 1:
+        return (ty == 'int' and x == want) or (ty == 'float' and x == Fraction(float(want)))
+    return ty == 'float' and x == Fraction(float(want))
+
+
+class Lift(object):
+    RULE = ('stream lift: seeded random specifications with every bound in a random unit notation (literals, exponents, one-sided units, '
+            'declared constants, undeclared / non-numeric / negative constants, inverted and off-grid intervals, unless, bounds around '
+            'sys.maxsize periods and around the float range; 14 periods as int or float text in any unit; 4 default units): the sequence of '
+            'bounds time_unit_transformer returns inside evaluate() / update() of the four monitors and after pastify(), or the stage and '
+            'class of the first exception, must be what UnitsLift.v computes (parse_bounds, normalize_log, normalize_dense, pastify of normalize)')
+
+    def __init__(self):
+        self.stats = {}
+
+    def count(self, k, n=1):
+        self.stats[k] = self.stats.get(k, 0) + n
+
+    def gen(self, rng, tier):
+        g = Gen(rng)
+        return [g.case() for _ in range(200 if tier == 'quick' else 4000)]
+
+    def model_lines(self, c):
+        return [c['model_line']]
+
+    def impl_cases(self, c):
+        out = []
+        names = ['a', 'b']
+        for kind in c['kinds']:
+            case = {'monitor': KINDS[kind], 'vars': names, 'spec': 'out = ' + c['text'], 'unit': c['unit'],
+                    'consts': [[n, 'float', t] for (n, t) in c['consts']]}
+            if c.get('ctor'):
+                case['ctor'] = c['ctor']
             if kind[0] == 'd':
-                same = r['log'] == e['log'] and all(type(x) is int and type(y) is int for x, y in r['log'])
+                case['period'] = c['period']
+            if c['big']:
+                case['calls'] = [['bounds_log', 'direct']]
             else:
-                same = len(r['log']) == len(e['log']) and all(type(a) is float and type(b) is float and a == float(x) and b == float(y)
-                                                              for (a, b), (x, y) in zip(r['log'], e['log']))
-            stats['ok_logs'] += 1
-            stats['ok:' + kind] = stats.get('ok:' + kind, 0) + 1
-            stats['bounds:' + kind] = stats.get('bounds:' + kind, 0) + len(r['log'])
-            stats['bounds'] += len(r['log'])
-            if not same:
-                bad.append((kind, c, 'log', r, e))
-    print('seed', seed, stats)
-    print('disagreements', len(bad))
-    for (kind, c, what, r, e) in bad[:10]:
-        print('---', kind, what)
-        print('  unit', c['du'], 'period', c['p'], c['pu'], 'consts', [(a, b) for a, b, _ in c['consts']])
-        print('  spec', c['text'])
-        print('  rtamt', r)
-        print('  model', e)
-    return 1 if bad else 0
+                if kind == 'doff':
+                    data = {'time': [0, 1, 2]}
+                    for v in names:
+                        data[v] = [1.0, 2.0, 0.0]
+                    run = [['evaluate', data]]
+                elif kind in ('don', 'dpast'):
+                    run = [['update', 0, [[names[v], 1.0] for v in c['used']]]]
+                    if kind == 'dpast':
+                        run = [['pastify']] + run
+                else:
+                    run = [['evaluate' if kind == 'eoff' else 'update', [[names[v], [[0, 1.0], [1, 2.0], [2, 0.0]]] for v in c['used']]]]
+                case['calls'] = [['bounds_log']] + run + [['bounds_log']]
+            out.append(case)
+        return out
+
+    def judge(self, c, mlines, ires):
+        m = parse_fields(mlines[0])
+        if 'ERROR' in m:
+            return 'model-error', mlines
+        for kind, r in zip(c['kinds'], ires):
+            e = expect(m, kind)
+            det = {'shape': 'lift', 'monitor': kind, 'spec': c['text'], 'unit': c['unit'], 'period': c['period'], 'consts': c['consts']}
+            self.count('comparisons')
+            if r['setup']['status'] != 'ok' or e['parse'] != 'ok':
+                self.count('rejected_by_parse')
+                if r['setup']['status'] != e['parse']:
+                    return 'violation', dict(det, what='parse()', expected=e['parse'], observed=r['setup'])
+                continue
+            last = r['calls'][-1] if r['calls'] else {'status': 'missing'}
+            if last.get('status') != 'ok' or not isinstance(last.get('value'), dict):
+                return 'violation', dict(det, what='bounds_log', expected='a log', observed=last)
+            log, fail = last['value']['log'], last['value']['fail']
+            if fail is not None or e['fail'] is not None:
+                self.count('rejected_by_the_interpreter:' + kind)
+                if (fail or 'none').split(':')[0] != (e['fail'] or 'none'):
+                    return 'violation', dict(det, what='first exception of time_unit_transformer', expected=e['fail'], observed={'fail': fail, 'log': log})
+                continue
+            want = e['log']
+            other = [x for x in r['calls'][:-1] if x.get('status') != 'ok']
+            if other:
+                # the evaluation stopped for another reason (an operator the monitor does not have): the bounds converted so far
+                self.count('stopped_early')
+                want = want[:len(log)]
+            if len(log) != len(want) or not all(same_bound(kind, (g[0], g[2]), w[0]) and same_bound(kind, (g[1], g[3]), w[1]) for g, w in zip(log, want)):
+                return 'violation', dict(det, what='converted bounds, in order', expected=[[str(a), str(b)] for a, b in want], observed=log)
+            self.count('logs_equal:' + kind)
+            self.count('bounds_compared', len(log))
+        return 'ok', None
+
+    def signature(self, c, detail):
+        d = detail if isinstance(detail, dict) else {}
+        return {'shape': 'lift', 'monitor': d.get('monitor'), 'what': d.get('what')}
+
+    def key(self, c):
+        return json.dumps([c['text'], c['unit'], c['period'], c['consts'], c['kinds']])
+
+    def nontrivial(self, c):
+        return True
+
+    def features(self, c):
+        return ['lift'] + ['lift:' + f for f in c.get('feat', [])]
+
+    def describe(self, c):
+        return {'stream': 'lift', 'spec': c['text'], 'unit': c['unit'], 'period': c['period'], 'consts': c['consts'], 'monitors': c['kinds']}
 
 
-if __name__ == '__main__':
-    sys.exit(main())
+def extend(cls, extra):
+    """A subclass of the check `cls` that also runs the case stream `extra` (cases flagged lift=1)."""
+
+    class Ext(cls):
+        RULE = cls.RULE + ' || ' + extra.RULE
+
+        def gen_cases(self, rng, tier):
+            # (the other streams draw from rng as before; this one comes first so that its few signature groups are reported
+            # before the report limit is reached)
+            import random
+            base = cls.gen_cases(self, rng, tier)
+            return extra.gen(random.Random(rng.randrange(1 << 62)), tier) + base
+
+        def load_case(self, c):
+            return dict(c) if c.get('lift') else cls.load_case(self, c)
+
+        def normalize(self, c):
+            return c if c.get('lift') else cls.normalize(self, c)
+
+        def cheap(self, c):
+            return True if c.get('lift') else cls.cheap(self, c)
+
+        def model_lines(self, c):
+            return extra.model_lines(c) if c.get('lift') else cls.model_lines(self, c)
+
+        def impl_cases(self, c):
+            return extra.impl_cases(c) if c.get('lift') else cls.impl_cases(self, c)
+
+        def replay_cases(self, c):
+            return extra.impl_cases(c) if c.get('lift') else cls.replay_cases(self, c)
+
+        def judge(self, c, mlines, ires):
+            return extra.judge(c, mlines, ires) if c.get('lift') else cls.judge(self, c, mlines, ires)
+
+        def signature(self, c, detail):
+            return extra.signature(c, detail) if c.get('lift') else cls.signature(self, c, detail)
+
+        def key(self, c):
+            return extra.key(c) if c.get('lift') else cls.key(self, c)
+
+        def nontrivial(self, c):
+            return extra.nontrivial(c) if c.get('lift') else cls.nontrivial(self, c)
+
+        def features(self, c):
+            return extra.features(c) if c.get('lift') else cls.features(self, c)
+
+        def describe(self, c):
+            return extra.describe(c) if c.get('lift') else cls.describe(self, c)
+
+        def extra_evidence(self):
+            ev = dict(cls.extra_evidence(self))
+            ev['stream_lift'] = dict(extra.stats)
+            return ev
+
+    Ext.__name__ = cls.__name__
+    return Ext
